@@ -399,7 +399,7 @@ Lemma sitems_snoc : forall FT SP il B c lr sl st, ok_stmt FT SP il B st = true -
 Proof.
   intros FT SP il B c lr sl st H. destruct st; try discriminate.
   - eexists. eexists. split; [cbn [sitems]; reflexivity|discriminate].
-  - exists (map CI (pcode (S c) e) ++ [I OP_BIN_OP_ASSIGN [binop_sym o ++ [61%N]; x]]), (I OP_VOID []).
+  - exists (map CI (xcode (S c) e) ++ [I OP_BIN_OP_ASSIGN [binop_sym o ++ [61%N]; x]]), (I OP_VOID []).
     split; [cbn [sitems]; now rewrite <- app_assoc|discriminate].
   - exists (map CI (xcode c e) ++ [I OP_PRINTN [s_star]]), (I OP_VOID []).
     split; [cbn [sitems]; now rewrite <- app_assoc|discriminate].
